@@ -13,6 +13,7 @@ import (
 	transport_controller "github.com/aperturerobotics/bifrost/transport/controller"
 	"github.com/aperturerobotics/controllerbus/directive"
 	protobuf_go_lite "github.com/aperturerobotics/protobuf-go-lite"
+	"github.com/aperturerobotics/util/broadcast"
 
 	"verif/sim/dsim"
 	"verif/sim/worlds/node"
@@ -48,6 +49,7 @@ type c04World struct {
 	viol    *dsim.Violation
 	strms   int
 	handled int
+	nd2     *node.Node
 }
 
 type c04Dir struct {
@@ -57,6 +59,7 @@ type c04Dir struct {
 	values   map[uint32]link.MountedLink
 	released bool
 	id       int
+	node2    bool // lives on the second bus
 }
 
 func (d *c04Dir) HandleValueAdded(_ directive.Instance, v directive.AttachedValue) {
@@ -107,6 +110,7 @@ func (w *c04World) fail(v *dsim.Violation) {
 func (w *c04World) Setup(s *dsim.Sim) {
 	w.s = s
 	t := s.Tape
+	broadcast.SimSlowPaths = 0
 	w.net = node.NewNet(s)
 	w.nd = w.net.AddNode("N", "S1", "S2")
 	w.tcs = []*node.TC{w.nd.AddTransport("t1", "S1"), w.nd.AddTransport("t2", "S2")}
@@ -118,8 +122,26 @@ func (w *c04World) Setup(s *dsim.Sim) {
 		w.net.Party(n)
 	}
 	w.nd.AddController(&node.HandlerCtl{ID: "c04", Fn: w.handleStream})
+	if t.Bool(1, 3, "any-peer-controller") {
+		// a second bus with ONE identity and a transport controller configured with an empty
+		// peer id (it takes whatever peer the bus has)
+		w.nd2 = w.net.AddNode("N2", "S3")
+		w.tcs = append(w.tcs, w.nd2.AddTransportAnyPeer("t3", "S3"))
+		d := &c04Dir{w: w, src: "", dst: "S3", values: map[uint32]link.MountedLink{}, id: 100, node2: true}
+		_, ref, err := w.nd2.Bus.AddDirective(link.NewEstablishLinkWithPeer("", w.pid("S3")), d)
+		if err != nil {
+			panic(err)
+		}
+		d.ref = ref
+		w.dirs = append(w.dirs, d)
+	}
 	arm := []int{0, 40, 100}[t.Draw(3, "arm-pct")]
-	s.ArmFraction(arm, []string{"bl:bifrost/transport/controller/transport-handler.go", "bl:bifrost/transport/controller/establish-link.go"})
+	s.ArmFraction(arm, []string{"bl:bifrost/transport/controller/transport-handler.go", "bl:bifrost/transport/controller/establish-link.go", "bl:bifrost/transport/controller/controller.go"})
+	if t.Bool(1, 2, "holder-park") {
+		// a reader parked while holding the controller lock makes the TryHoldLock pre-check
+		// of the directive handler fail (the source filter must then be applied later)
+		s.SetHolderPark(func(site string) bool { return strings.Contains(site, "bifrost/transport/controller/controller.go") })
+	}
 }
 
 // handleStream is the harness MountedStreamHandler.
@@ -161,6 +183,9 @@ func (w *c04World) wantValues(d *c04Dir) []string {
 		if !w.live[l] || l.Rem == l.Local {
 			continue
 		}
+		if (l.T.TC.Name == "t3") != d.node2 {
+			continue
+		}
 		if w.net.Names[l.Rem.String()] != d.dst {
 			continue
 		}
@@ -181,9 +206,12 @@ func (w *c04World) Actions(s *dsim.Sim, add func(dsim.Action)) {
 	t := s.Tape
 	add(dsim.Action{Name: "3op:establish", Weight: 8, Fire: func() {
 		w.ops++
-		tc := w.tcs[t.Draw(2, "tc")]
+		tc := w.tcs[t.Draw(len(w.tcs), "tc")]
 		remotes := []string{"D1", "D2", "D3", "S1", "S2"}
 		r := remotes[t.Draw(len(remotes), "remote")]
+		if tc.Name == "t3" && t.Bool(1, 2, "self") {
+			r = "S3"
+		}
 		w.seq++
 		l := w.net.NewLink(tc.Tpt, fmt.Sprintf("L%d.%s>%s", w.seq, tc.P.Name, r), uint64(100+w.seq), w.pid(r))
 		l.LostFn = func() { w.lose(l) }
@@ -214,6 +242,11 @@ func (w *c04World) Actions(s *dsim.Sim, add func(dsim.Action)) {
 			}
 		}
 	}
+	add(dsim.Action{Name: "3op:reader", Weight: 2, Fire: func() {
+		w.ops++
+		tc := w.tcs[t.Draw(2, "tc")]
+		go func() { _ = tc.Ctrl.GetPeerLinks(w.pid("D1")) }()
+	}})
 	if len(w.dirs) < 8 {
 		add(dsim.Action{Name: "3op:add-directive", Weight: 6, Fire: func() {
 			w.ops++
@@ -283,6 +316,12 @@ func (w *c04World) check(s *dsim.Sim) *dsim.Violation {
 		sort.Strings(got)
 		want := w.wantValues(d)
 		st = append(st, fmt.Sprintf("%s>%s:%v", d.src, d.dst, want))
+		if broadcast.SimSlowPaths > 0 {
+			// a transport callback was deferred by HoldLockMaybeAsync in this run: which links
+			// are live is then C06's question (known finding S-5b); C04 only constrains the
+			// peers of what is yielded (checked on every value above)
+			continue
+		}
 		if strings.Join(got, ",") != strings.Join(want, ",") {
 			kind := "missing-value"
 			if len(got) > len(want) {
